@@ -830,6 +830,21 @@ impl rustc_driver::Callbacks for Cb {
                 bodies.push(b);
             }
         }
+        // public names of the crate root (items and re-exports)
+        let mut exports = Vec::new();
+        for ch in tcx.module_children_local(rustc_hir::def_id::CRATE_DEF_ID) {
+            if let rustc_hir::def::Res::Def(kind, did) = ch.res {
+                exports.push(J::O(vec![
+                    ("name", s(ch.ident.name)),
+                    ("target", s(cx.path(did))),
+                    ("target_name", s(tcx.item_name(did))),
+                    ("kind", s(format!("{:?}", kind))),
+                    ("public", J::B(ch.vis.is_public())),
+                    ("reexport", J::B(!ch.reexport_chain.is_empty())),
+                    ("target_local", J::B(did.is_local())),
+                ]));
+            }
+        }
         // crate attributes
         let no_std = rustc_hir::find_attr!(tcx, crate, NoStd);
         let (lvl, _) = {
@@ -862,6 +877,7 @@ impl rustc_driver::Callbacks for Cb {
             ("statics", J::A(statics)),
             ("aliases", J::A(aliases)),
             ("fns", J::A(fns)),
+            ("exports", J::A(exports)),
             ("bodies", J::A(bodies)),
             ("types", J::A(cx.types.clone())),
         ]);
